@@ -299,6 +299,19 @@ def to_sfnt(data, idx=-1):
     return b.getvalue()
 
 
+def conflicting_unicode_cmaps(font):
+    """True when two Unicode cmap subtables map one code point to different glyphs: which glyph a
+    character 'has' then depends on the client's subtable choice, and a by-character comparison of
+    original and subset is not defined."""
+    seen = {}
+    for t in font["cmap"].tables:
+        if t.format != 14 and t.isUnicode():
+            for u, g in t.cmap.items():
+                if seen.setdefault(u, g) != g:
+                    return True
+    return False
+
+
 def corpus_fonts(tier, seed):
     """-> {key: sfnt bytes}.  AOTS family: one font per lookup type.format set in quick (which
     one rotates with the seed), all in thorough; subset test inputs; other small corpus fonts
@@ -318,6 +331,8 @@ def corpus_fonts(tier, seed):
             continue
         if references_missing_glyphs(data, idx):
             continue  # layout tables name glyph ids >= numGlyphs: malformed on purpose
+        if conflicting_unicode_cmaps(f):
+            continue  # "the glyph of a character" is ambiguous (AOTS cmap_subtableselection fonts)
         if corpus.is_aots(name):
             kinds = lookup_kinds(f)
             if not kinds and "cmap" not in name:
